@@ -40,7 +40,15 @@ type Frame struct {
 	// opposed to a builtin function or external command).
 	src       parse.Source
 	local, up *Ns
-	defers    *[]func(*Frame) Exception
+	defers    *deferList
+}
+
+// Functions to call when the closure being run finishes. The forms of a
+// pipeline run concurrently on forks of the same Frame and share the list, so
+// it is guarded by a mutex.
+type deferList struct {
+	mu  sync.Mutex
+	fns []func(*Frame) Exception
 }
 
 // PrepareEval prepares a piece of code for evaluation in a copy of the current
@@ -261,12 +269,16 @@ func (fm *Frame) Deprecate(msg string, ctx *diag.Context, minLevel int) {
 }
 
 func (fm *Frame) addDefer(f func(*Frame) Exception) {
-	*fm.defers = append(*fm.defers, f)
+	fm.defers.mu.Lock()
+	defer fm.defers.mu.Unlock()
+	fm.defers.fns = append(fm.defers.fns, f)
 }
 
 func (fm *Frame) runDefers() Exception {
 	var exc Exception
-	defers := *fm.defers
+	fm.defers.mu.Lock()
+	defers := fm.defers.fns
+	fm.defers.mu.Unlock()
 	for i := len(defers) - 1; i >= 0; i-- {
 		exc2 := defers[i](fm)
 		// TODO: Combine exc and exc2 if both are not nil
